@@ -19,7 +19,7 @@ from pp_engine import vh_cases
 SENTINEL_NS = 1_000_000_000 * 1_000_000_000
 
 SCENARIOS = {
-    "AB": dict(sources=["A", "B"], deps=dict(A=["B"], B=[]), temps=["A"], failing=[], tla=("Src_AB", "Deps_AB", "Temp_AB", "Fail_None")),
+    "AB": dict(sources=["A", "B"], deps=dict(A=["B"], B=[]), temps=["A"], failing=[], temp_after_deps=["A"], tla=("Src_AB", "Deps_AB", "Temp_AB", "Fail_None")),
     "ERR": dict(sources=["A", "B"], deps=dict(A=["B"], B=[]), temps=["A"], failing=["A"], tla=("Src_AB", "Deps_AB", "Temp_AB", "Fail_A")),
     "IND": dict(sources=["A", "B"], deps=dict(A=[], B=[]), temps=["A", "B"], failing=[], tla=("Src_AB", "Deps_IND", "Temp_IND", "Fail_None")),
     "TRB": dict(sources=["A", "B"], deps=dict(A=["B"], B=[]), temps=["A"], failing=[], readback=["A"], tla=("Src_AB", "Deps_AB", "Temp_AB", "Fail_None")),
@@ -30,7 +30,7 @@ SCENARIOS = {
 # layout: source -> (directory, source file name, output file name); temp target relative to the source's directory
 LAYOUTS = {
     "flat": dict(A=("", "a.txt.txtpp", "a.txt"), B=("", "b.txt.txtpp", "b.txt"), C=("", "c.txt.txtpp", "c.txt"),
-                 temp=dict(A="ta.tmp", B="tb.tmp", C="tc.tmp")),
+                 temp=dict(A="gen/ta.tmp", B="tb.tmp", C="tc.tmp")),     # gen/: a directory that holds nothing but a temp target
     "nested": dict(A=("", "a.txt.txtpp", "a.txt"), B=("sub", "b.txtpp.txt", "b.txt"), C=("sub/deep", "c.txtpp", "c"),
                    temp=dict(A="sub/ta.tmp", B="tb.tmp", C="../tc.tmp")),
     "shapes": dict(A=("x", "a.txtpp", "a"), B=("x", ".b.txt.txtpp", ".b.txt"), C=("", "c.txtpp.md", "c.md"),
@@ -75,7 +75,8 @@ class Project:
             # nothing but a temp directive: the output of this source is the empty file
             return "\n".join([f"// TXTPP#temp {self.lay['temp'][s]}", f"// body of {s} v{v}", "// ü second"]) + "\n"
         lines = [f"{s}-head v{v} é"]
-        if s in self.scen["temps"]:
+        late_temp = s in self.scen.get("temp_after_deps", [])    # the temp directive comes after the dependency lines: only the final pass reaches it
+        if s in self.scen["temps"] and not late_temp:
             lines += [f"// TXTPP#temp {self.lay['temp'][s]}", f"// body of {s} v{v}", "// ü second"]
             if s in self.scen.get("readback", []):
                 # the source reads its own temp file back: its output depends on the temp file being regenerated first
@@ -85,6 +86,8 @@ class Project:
         for d in self.scen["deps"][s]:
             rel = os.path.relpath(self.out_path(d), self.lay[s][0] or ".")
             lines.append(f"TXTPP#include {rel}")
+        if s in self.scen["temps"] and late_temp:
+            lines += [f"// TXTPP#temp {self.lay['temp'][s]}", f"// body of {s} v{v}", "// ü second"]
         if s in self.scen["failing"]:
             lines.append("TXTPP#include no-such-file")
         lines.append(f"{s}-tail")
@@ -94,6 +97,7 @@ class Project:
         files = [dict(path="p/" + self.src_path(s), text=self.source_text(s, ver[s])) for s in self.scen["sources"]]
         for d in DECOYS:
             files.append(dict(path="p/" + d, text=f"decoy {d}\n"))
+        files.append(dict(path="p/gen", dir=True))
         # decoys at the names a careless implementation might use for staging / backup copies of an output
         for s in self.scen["sources"]:
             o = self.out_path(s)
@@ -283,6 +287,14 @@ def judge_step(proj, mat, edge_group, pre, post, verdict, detail=""):
     for p, w in post.items():
         if p not in pre and p not in gen_paths and "dir" not in w:
             probs.append(("C10", f"{act} created {p}, which is neither an output nor a temp target"))
+    for p, v in pre.items():
+        if "dir" in v and p not in post:
+            probs.append(("C10", f"{act} removed the directory {p}"))
+            if act == "clean":
+                probs.append(("C07", f"clean removed the directory {p}, which was there before any build"))
+    for p, w in post.items():
+        if "dir" in w and p not in pre:
+            probs.append(("C10", f"{act} created the directory {p}"))
     if verdict_wrong:
         return probs      # the prediction for the generated paths belongs to the other verdict
     # generated paths: some candidate post-state must explain the tree
@@ -627,11 +639,12 @@ def clean_histories(rep, wd, rng, quick):
     for (proj, hist, how, failing), r in zip(meta, res):
         if r.get("skipped"):
             continue   # the runner stopped after too many hung / panicked runs (each one already reported)
-        pre = {p: v for p, v in r["steps"][0]["tree"].items() if "dir" not in v}
+        # directories count as well (text None): none may disappear or appear
+        pre = {p: ({} if "dir" in v else v) for p, v in r["steps"][0]["tree"].items()}
         ctx = f"[scenario {proj.name}/{proj.layout} history {hist} inputs via {how}]"
         ran_before = 0
         for h, st in zip(hist, r["steps"][1:]):
-            tree = {p: v for p, v in st["tree"].items() if "dir" not in v}
+            tree = {p: ({} if "dir" in v else v) for p, v in st["tree"].items()}
             if h == "clean":
                 if st["verdict"] != "ok":
                     rep.violation(f"clean:verdict:{proj.name}", f"clean reports {st['verdict']} {st.get('detail', '')} {ctx}", dict(hist=hist))
